@@ -454,6 +454,18 @@ def classify(S, d):
             hits = [[et2 for et2 in S.model_before.get(g2, {}).get("m", {}) if kept(g2, et2)] for g2 in set(real) - set(model)]
             if all(hits):
                 return c["undetached_mech"][hits[0][0]]
+    if op == "return_group_as_net" and c["args"]["keep_everything_else"] and c.get("n_groups", 0) > 1 and c.get("stale"):
+        # with further groups in the net return_group_as_net calls remove_not_existing_group_members(net) on the INPUT net instead
+        # of the returned copy (groups.py, "Not existing members get dropped now"): exactly the members without a row disappear
+        st = c["stale"]
+        if code == "raw_values" and (gi, et) in st and set(real) == st[(gi, et)][1] - st[(gi, et)][0]:
+            return "return_group_as_net_cleans_groups_of_input_net"
+        if code == "missing_row" and (gi, et) in st and st[(gi, et)][0] == st[(gi, et)][1]:
+            return "return_group_as_net_cleans_groups_of_input_net"
+        if code == "group_index_set" and not set(real) - set(model) and set(model) - set(real) and all(
+                all((g2, et2) in st and st[(g2, et2)][0] == st[(g2, et2)][1] for et2 in S.model_before[g2]["m"])
+                for g2 in set(model) - set(real)):
+            return "return_group_as_net_cleans_groups_of_input_net"
     if op == "drop_group_and_elements":
         # rows are dropped directly: other groups keep the dropped elements as members
         dropped = c.get("dropped", {})
@@ -1399,7 +1411,22 @@ def op_as_net(S):
     net, g, M = S.net, S.g, S.model
     gi = S.pick_group()
     keep = g.B(0.4)
-    S.ctx.update(op="return_group_as_net", args={"group": gi, "keep_everything_else": keep})
+    # members that remove_not_existing_group_members would remove (rows missing after earlier known defects, or values that
+    # pandapower's own existence test does not find, e.g. the number 0 in a text column)
+    from pandapower.groups import group_entries_exist_in_element_table
+    stale = {}
+    for g2, ent in M.items():
+        for et2, (rc2, vals2) in ent.get("m", {}).items():
+            try:
+                row = net.group.loc[[g2]]
+                raw = list(row.element_index[row.element_type == et2].iloc[0])
+                ex = np.asarray(group_entries_exist_in_element_table(net, g2, et2), dtype=bool)
+                gone = set(py(v) for v, e in zip(raw, ex) if not e)
+            except Exception:  # noqa
+                continue
+            if gone:
+                stale[(g2, et2)] = (gone, set(py(v) for v in raw))
+    S.ctx.update(op="return_group_as_net", args={"group": gi, "keep_everything_else": keep}, stale=stale, n_groups=len(M))
     ok, r = call(pp.return_group_as_net, net, gi, keep_everything_else=keep, verbose=False)
     S.x["as_net_keep" if keep else "as_net"] += 1
     if not ok:
